@@ -55,9 +55,21 @@ CHECK = {'level': 'exploration',
          'responses OBSERVED late (requester saw errTimeout / a cancelled context while the handler completed), per-IP maxima 1-4 / 5-11 / >= 12. 8 fixed scripts in every tier '
          '(TestRegressLateHonestResponses: 3 x 4 late attempts; 5 single late responses with the score read after each; 7 cancels before / 2 after the answer; 8 answers racing the timeout; two '
          'responders on one IP; dial-only responder; both nodes on ::1 slow in turn; responder with 3 connections answering over other connections). '
+         'HIT-AND-RUN OFFENDERS (about 1 generated scenario in 12 + 10 fixed scripts in every tier; hitrun_test.go): the offender writes its offending message and closes the stream AND the connection at once, so that the '
+         'victim books the offence for a peer that has already left. Offenders: a started p2p.Connection on its own loopback IP / without listen address (seen as 127.0.0.1) / on ::1 next to the victim (raw-stream hook), '
+         'or the raw libp2p peer with 1-3 simultaneous connections (scope all: every connection closed; scope one: only the connection that carried the message - the ban must close the others). Offences: undecodable '
+         'envelope / unknown procedure on the request and on the response protocol, the request that exceeds a procedure limit (window filled with served requests first; repeated with re-dials - which must be ADMITTED below '
+         'the threshold - until banned), handler-issued ApplyPenalty/BanPeer racing with the close, ApplyPenalty/BanPeer by peer ID right after the disconnect. Orderings (drawn): gone = FORCED through the logger handed to '
+         'the victim (onRequest/onResponse log "Data from <peer> received" after the stream was read and before decoding, checkLimit logs "sent too many messages" right before it penalises): the handler is kept in that logger '
+         'call until the victim itself lists no connection to the offender, then released; race = the offender closes 0-10 ms after the write, nothing forced, what happened is labelled (message lost / penalty path entered '
+         'with the offender gone / still connected); logged = closes as soon as the victim logged the offence. Oracle, positive evidence only: once the victim has LOGGED the offence (message read, penalty call reached) its '
+         'stored score for the offender IP must show the penalty within 6 s (heartbeat-aware): >= threshold in one step for envelope offences, exactly the procedure penalty for the rate limit; a message the victim never '
+         'logged earns nothing (counted). Then the ban consequences as everywhere: listed, no connection left, re-dials from the IP (InterceptAccept/Secured) and the own dial of the victim (InterceptAddrDial) refused while '
+         'the ban is certain, ban seen over, re-dial admitted, request served, clean score, small penalty exact. Outside the domain, recorded only: Connection.ApplyPenalty/BanPeer(peerID) resolve the address through the live '
+         'connections of the peer - for a peer that has left the unchanged engine knows no address and books nothing; a handler-issued penalty is asserted only when the victim still held a connection right after the call. '
          'Non-trivial = (timed gater) an IP crossed the threshold by accumulation, was queried while certainly banned and again '
          'after the ban was seen over; (untimed gater) crossed by accumulation and queried while banned; (end-to-end) a ban caused by traffic with a '
-         'refused dial during the ban and an accepted one after it (multi-connection peer: banned while holding >= 2 connections, all closed), or a legal-only scenario that filled a rate window exactly or whose mix over the procedures exceeded a single limit, or (concurrent traffic around ticks) a reset tick that fell into a held or running penalty path of a procedure of which an innocent peer sent more than the limit over the two adjacent windows, or (late honest responses) at least one response observed late, the scores read after the traffic had drained and a re-dial accepted; (concurrent) >= 2 '
+         'refused dial during the ban and an accepted one after it (multi-connection peer: banned while holding >= 2 connections, all closed), or a legal-only scenario that filled a rate window exactly or whose mix over the procedures exceeded a single limit, or (concurrent traffic around ticks) a reset tick that fell into a held or running penalty path of a procedure of which an innocent peer sent more than the limit over the two adjacent windows, or (late honest responses) at least one response observed late, the scores read after the traffic had drained and a re-dial accepted, or (hit-and-run) an offence booked although the victim listed no connection to the offender (or not the offending connection) when it logged the offence, with a refusal while the ban was certain and the ban seen over; (concurrent) >= 2 '
          'racing penalties reaching the threshold. Distinct by digest of the concrete operation list. '
          '(c) INVALID SYNC REQUESTS against the REAL sync handlers (TestSyncRequests, TestRegressSyncRequests): the penalising side is a real consensus '
          'node (harness/node: Executer + consensus/sync Syncer over an in-memory chain of 1-6 blocks, started p2p.Connection on which Executer.Init '
@@ -98,6 +110,7 @@ CHECK = {'level': 'exploration',
                  'window over by elapsed time (fallback of the concurrent-tick scenarios, not needed on the unchanged tree): after a reset tick has positively fired, every counter has been reset once no penalising checkLimit is in progress and the process ran >= 20 heartbeats (>= 100 ms) since',
                  'an end-to-end scenario is reported only if it fails in 3 consecutive attempts without a process stall > 250 ms (else inconclusive); exception (late-response scenarios): a score or ban stored for the IP of a peer that only sent well-formed, solicited traffic within the limits is positive evidence that no delay can produce and is reported at its first occurrence',
                  'a response to a request this node really sent (same request ID, registered procedure, decodable) is well-formed traffic whenever it arrives: after the response timeout, after a re-send under a fresh ID, after the caller cancelled; the re-sends of RequestFrom (up to messageMaxRetries) count as requests of the requester',
+                 'hit-and-run: a penalty belongs to the IP the offending message came from, not to the live connection; the victim logging the offence (its stream handler read the message and reached the penalty call) is the evidence that the message was processed; keeping the handler in that logger call until the offender is gone is a schedule the statement quantifies over; penalties addressed by peer ID (ApplyPenalty/BanPeer) for a peer without any live connection are outside the domain',
                  'a "ban should be over by now" verdict is final only if it persists over 600 further process heartbeats (>= 3 s)'],
  'quick': [{'pkg': 'c18', 'run': 'TestGaterUntimed|TestGaterConcurrent|TestRegress', 'checks': 3000, 'timeout': 600},
            {'pkg': 'c18', 'run': 'TestGaterTimed', 'checks': 6, 'shrinktime': '10s', 'timeout': 600},
